@@ -8,6 +8,7 @@ import (
 	"github.com/ethereum/go-ethereum/accounts/abi"
 
 	errorsmod "cosmossdk.io/errors"
+	sdkmath "cosmossdk.io/math"
 )
 
 const solidityTypeString = "string"
@@ -85,10 +86,13 @@ func DecodeABIFungibleTokenPacketData(data []byte) (*FungibleTokenPacketData, er
 }
 
 func EncodeABIFungibleTokenPacketData(data *FungibleTokenPacketData) ([]byte, error) {
-	amount, ok := new(big.Int).SetString(data.Amount, 10)
-	if !ok {
+	// parse the amount exactly as ValidateBasic and the keeper do (sdkmath.NewIntFromString), so that
+	// the uint256 written is the integer every other consumer of this packet data reads
+	amountInt, ok := sdkmath.NewIntFromString(data.Amount)
+	if !ok || amountInt.IsNegative() {
 		return nil, errorsmod.Wrapf(ErrAbiEncoding, "failed to parse amount: %s", data.Amount)
 	}
+	amount := amountInt.BigInt()
 
 	packetData := struct {
 		Denom    string   `json:"denom"`
